@@ -1,6 +1,6 @@
 (* Lemmas about Model/Conv.v : finite sums, the scatter through el3d_orig, the convolution formula,
    convexity (bounds / constants), the normalised radius kernel, volume preservation. *)
-From Coq Require Import ZArith List Lia Bool Ring Reals Lra.
+From Coq Require Import ZArith QArith List Lia Bool Ring Reals Lra.
 From Pymoto Require Import Base.Num Base.SparseLin Model.Grid Model.Pad Model.Conv Proofs.GridP Proofs.PadP.
 Import ListNotations.
 Open Scope Z_scope.
@@ -811,4 +811,62 @@ Proof.
   intros c Hp Hd Hodd Hsym Hnu Hm Hw1 Hx.
   rewrite (fc_volume f Hp Hd Hodd Hsym Hnu) by (try exact Hx; intros qa qb qc Ha Hb Hc; apply (Hm qa qb qc Ha Hb Hc)).
   fold c. rewrite Hw1. apply Rmult_1_l.
+Qed.
+
+(* ------------------------------------------------------------------ set_filter_radius never pads beyond the domain *)
+Lemma radius_delem_le (r dx : Q) (n : Z) : radius_delem r dx n <= n.
+Proof. unfold radius_delem. apply Z.le_min_l. Qed.
+
+(* ------------------------------------------------------------------ concrete instances (non-vacuity) *)
+Definition ex_w : arr3 Q := [[[1#8]; [1#8]; [0]]; [[1#8]; [1#4]; [1#8]]; [[0]; [1#8]; [1#8]]]%Q.
+Definition ex_f : @fconv Q :=
+  mk_fconv {| nelx := 3; nely := 2; nelz := 0 |} ex_w BSym BEdge BWrap (BConst 5%Q) BSym BSym [].
+
+Lemma ex_config_ok :
+  pads_nonneg (fc_pad ex_f) /\ dims_ok (fc_pad ex_f) /\ pad_ok (fc_pad ex_f) /\
+  shape3 (fc_w ex_f) = (2 * ppx (fc_pad ex_f) + 1, 2 * ppy (fc_pad ex_f) + 1, 2 * ppz (fc_pad ex_f) + 1) /\
+  el3d_pad (fc_pad ex_f) = [[[3]; [0]; [3]; [0]]; [[3]; [0]; [3]; [0]]; [[4]; [1]; [4]; [0]]; [[5]; [2]; [5]; [0]];
+                            [[5]; [2]; [5]; [0]]] /\
+  fc_response ex_f [1; 2; 3; 4; 5; 6]%Q = [(11#4); (7#2); (17#4); (29#8); (33#8); (19#4)]%Q.
+Proof.
+  split; [|split; [|split; [|split; [|split]]]].
+  - unfold pads_nonneg. cbn. lia.
+  - unfold dims_ok. cbn. lia.
+  - unfold pad_ok, axis_ok. cbn. lia.
+  - reflexivity.
+  - vm_compute. reflexivity.
+  - vm_compute. reflexivity.
+Qed.
+
+Definition ex_wR : arr3 R :=
+  [[[1/16]; [1/8]; [1/16]]; [[1/8]; [1/4]; [1/8]]; [[1/16]; [1/8]; [1/16]]]%R.
+Definition ex_fR : @fconv R :=
+  mk_fconv {| nelx := 4; nely := 3; nelz := 0 |} ex_wR BSym BSym BSym BSym BSym BSym [].
+
+Lemma ex_kernel_ok : exists f : @fconv R, let c := fc_pad f in
+  pads_nonneg c /\ dims_ok c /\ pad_ok c /\ no_const c /\ all_sym c /\ fc_uov f = [] /\ ppx c = 1 /\ ppy c = 1 /\
+  shape3 (fc_w f) = (2 * ppx c + 1, 2 * ppy c + 1, 2 * ppz c + 1) /\
+  (forall qa qb qc, 0 <= qa < 2 * ppx c + 1 -> 0 <= qb < 2 * ppy c + 1 -> 0 <= qc < 2 * ppz c + 1 ->
+     (0 <= wget (fc_w f) qa qb qc)%R /\
+     wget (fc_w f) (2 * ppx c - qa) qb qc = wget (fc_w f) qa qb qc /\
+     wget (fc_w f) qa (2 * ppy c - qb) qc = wget (fc_w f) qa qb qc /\
+     wget (fc_w f) qa qb (2 * ppz c - qc) = wget (fc_w f) qa qb qc) /\
+  zsum3 (2 * ppx c + 1) (2 * ppy c + 1) (2 * ppz c + 1) (wget (fc_w f)) = 1%R.
+Proof.
+  exists ex_fR. cbv zeta.
+  assert (Epx : ppx (fc_pad ex_fR) = 1) by reflexivity.
+  assert (Epy : ppy (fc_pad ex_fR) = 1) by reflexivity.
+  assert (Epz : ppz (fc_pad ex_fR) = 0) by reflexivity.
+  rewrite Epx, Epy, Epz.
+  split; [unfold pads_nonneg; rewrite Epx, Epy, Epz; lia|].
+  split; [unfold dims_ok; cbn; lia|].
+  split; [unfold pad_ok, axis_ok; cbn; auto|].
+  split; [unfold no_const; cbn; auto 10|].
+  split; [unfold all_sym; cbn; auto 10|].
+  split; [reflexivity|]. split; [reflexivity|]. split; [reflexivity|]. split; [reflexivity|].
+  split.
+  - intros qa qb qc Ha Hb Hc.
+    assert (Hq : (qa = 0 \/ qa = 1 \/ qa = 2) /\ (qb = 0 \/ qb = 1 \/ qb = 2) /\ qc = 0) by lia.
+    destruct Hq as ([?|[?|?]] & [?|[?|?]] & ?); subst; (split; [unfold wget, nth3, ex_fR, ex_wR; simpl; lra | repeat split; reflexivity]).
+  - unfold zsum3, zsum, wget, nth3, ex_fR, ex_wR. simpl. lra.
 Qed.
